@@ -300,16 +300,13 @@ fn dump_global_state(out: &mut Vec<(String, String)>, raw: &mut Vec<(String, Str
     // FxHashMap<StrId, _> (type_dag.rs apply: `map.map.values()`), i.e. it
     // follows the StrId numbering, which differs legitimately.  Compared as a
     // set per node; the order later stages do observe is `toposort` below.
-    sec("type_dag::dump", sort_parent_lines(&type_dag::dump()));
-    sec(
-        "type_dag::toposort",
-        type_dag::toposort()
-            .iter()
-            .map(|s| format!("{} @ {}", s.token.text, norm_debug(&format!("{:?}", s.namespace), &names)))
-            .collect::<Vec<_>>()
-            .join("\n"),
-    );
-    sec("type_dag::dump_file", type_dag::dump_file());
+    // (the repository's dump functions unwrap a toposort: they panic when a
+    // cyclic dependency was recorded — caught, the same in both runs)
+    let guarded = |f: &dyn Fn() -> String| -> String {
+        std::panic::catch_unwind(std::panic::AssertUnwindSafe(f)).unwrap_or_else(|_| "<the dump function panicked>".to_string())
+    };
+    sec("type_dag::dump", guarded(&|| sort_parent_lines(&type_dag::dump())));
+    sec("filelist order (sort_filelist over type_dag::toposort)", guarded(&filelist_order));
     raw.push((format!("{stage}/scope::dump_tokens"), scope::dump_tokens()));
     raw.push((format!("{stage}/attribute_table::dump"), attribute_table::dump()));
     raw.push((format!("{stage}/unsafe_table::dump"), unsafe_table::dump()));
@@ -418,20 +415,51 @@ fn dump_global_state(out: &mut Vec<(String, String)>, raw: &mut Vec<(String, Str
     sec("tests", tests.join("\n"));
 }
 
+/// `type_dag::dump` as a multiset of blocks (a node line + the set of its
+/// parent lines): nodes with equal names keep their toposort order in the
+/// dump, and that order — like the order of a node's parent lines — follows
+/// the order in which edges were added, see `dump_global_state`.
 fn sort_parent_lines(dump: &str) -> String {
-    let mut out: Vec<String> = Vec::new();
-    let mut run: Vec<String> = Vec::new();
+    let mut blocks: Vec<(String, Vec<String>)> = Vec::new();
     for l in dump.lines() {
         if l.starts_with(" |- ") {
-            run.push(l.to_string());
+            if let Some(b) = blocks.last_mut() {
+                b.1.push(l.to_string());
+            } else {
+                blocks.push((String::new(), vec![l.to_string()]));
+            }
         } else {
-            run.sort();
-            out.append(&mut run);
-            out.push(l.to_string());
+            blocks.push((l.to_string(), Vec::new()));
         }
     }
-    run.sort();
-    out.append(&mut run);
+    let mut out: Vec<String> = blocks
+        .into_iter()
+        .map(|(h, mut p)| {
+            p.sort();
+            if p.is_empty() { h } else { format!("{h}\n{}", p.join("\n")) }
+        })
+        .collect();
+    out.sort();
+    out.join("\n")
+}
+
+/// The order `cmd_build.rs sort_filelist` derives from the type DAG: files in
+/// the order their modules / interfaces / packages first appear in
+/// `type_dag::toposort()`.
+fn filelist_order() -> String {
+    use veryl_analyzer::symbol::SymbolKind;
+    let mut seen = std::collections::BTreeSet::new();
+    let mut out = Vec::new();
+    for symbol in type_dag::toposort() {
+        if matches!(symbol.kind, SymbolKind::Module(_) | SymbolKind::Interface(_) | SymbolKind::Package(_))
+            && let TokenSource::File { path, .. } = symbol.token.source
+        {
+            let p = path.to_string();
+            if seen.insert(p.clone()) {
+                out.push(p);
+            }
+        }
+    }
     out.join("\n")
 }
 
